@@ -248,6 +248,24 @@ pub fn run_c10(out: &mut Out, tier: &str, seed: u64) {
             other => out.hit("obj.pwhash.hash_with_salt.fails", format!("class {} salt {} hash {}", other.class(), sl, hl), json!({"salt_len":sl,"hash_len":hl})),
         }
     }
+    // crypto_pwhash_str with the salt scripted through the generator hook, so that the model can follow:
+    // the string, and its verification with the right and a wrong password
+    for (k, (ops, mem)) in [(1u64, 8192usize), (2, 9 * 1024), (1, 13 * 1024 + 7)].iter().enumerate() {
+        let pw = rng.bytes([0usize, 7, 33][k]);
+        let salt: [u8; 16] = rng.arr();
+        { let mut g = crate::c11::STREAM.lock().unwrap(); g.0 = salt.to_vec(); g.0.extend_from_slice(&[0u8; 64]); g.1 = 0; g.2.clear(); }
+        dryoc::rng::verif_set_rng(Some(crate::c11::hook));
+        let r = guard(|| crypto_pwhash_str(&pw, *ops, *mem));
+        dryoc::rng::verif_set_rng(None);
+        out.case("pwhash.str", &[b(&pw), b(&salt), Tok::B(ops.to_le_bytes().to_vec()), Tok::B((*mem as u64).to_le_bytes().to_vec())], &r.clone().map(|x| vec![Tok::B(x.into_bytes())]), true);
+        if let Outcome::Ok(sx) = r {
+            let v = guard(|| crypto_pwhash_str_verify(&sx, &pw));
+            out.case("pwhash.str_verify", &[b(sx.as_bytes()), b(&pw)], &v.map(|_| vec![]), true);
+            let mut wrong = pw.clone(); wrong.push(1);
+            let v = guard(|| crypto_pwhash_str_verify(&sx, &wrong));
+            out.case("pwhash.str_verify", &[b(sx.as_bytes()), b(&wrong)], &v.map(|_| vec![]), true);
+        }
+    }
     // grammar-built canonical strings of both algorithms re-encode to themselves (no hashing needed)
     for (class, s) in grammar(&mut rng, if thorough { 200 } else { 40 }) {
         if class != "valid" { continue; }
